@@ -642,6 +642,14 @@ def gen_subquery():
         ("scalar-correlated-count", ("eq", ("scalar", sel(U, [(agg("COUNT_STAR"), "x")], where=("eq", UA, TA))), L(0))),
         ("scalar-correlated-count", ("eq", ("scalar", sel(U, [(agg("COUNT", UB), "x")], where=("eq", UA, TA))), L(0))),
         ("scalar-correlated", ("isnull", ("scalar", sel(U, [(agg("SUM", UB), "x")], where=("eq", UA, TA))))),
+        # correlations the optimizer cannot turn into a join (non-equality, under OR): the subquery is run per outer row, also for
+        # an outer row whose correlated column is NULL -- where its result need not be empty / NULL
+        ("exists-correlated-or", ("exists", sel(U, [(L(1), "x")], where=("or", ("eq", UA, TA), ("eq", UB, L(1)))))),
+        ("not-exists-correlated-or", ("not", ("exists", sel(U, [(L(1), "x")], where=("or", ("eq", UA, TA), ("isnull", UB)))))),
+        ("in-subquery-correlated-or", ("insub", TB, sel(U, [(UB, "x")], where=("or", ("eq", UA, TA), ("isnull", UA))))),
+        ("not-in-subquery-correlated-or", ("notinsub", TB, sel(U, [(UB, "x")], where=("or", ("lt", UA, TA), ("eq", UB, L(2)))))),
+        ("scalar-correlated-count-non-equi", ("eq", ("scalar", sel(U, [(agg("COUNT_STAR"), "x")], where=("lt", UA, TA))), L(0))),
+        ("scalar-correlated-count-non-equi", ("gt", ("scalar", sel(U, [(agg("COUNT", UB), "x")], where=("or", ("gt", UA, TA), ("isnull", UA)))), L(0))),
         ("all", ("quant", "gt", "ALL", TA, ua)),
         ("all", ("quant", "neq", "ALL", TA, ua)),
         ("all", ("quant", "ge", "ALL", TA, ua_f)),
@@ -664,6 +672,10 @@ def gen_subquery():
         ("scalar-correlated", ("scalar", sel(U, [(agg("SUM", UB), "x")], where=("eq", UA, TA)))),
         ("scalar-correlated", ("scalar", sel(U, [(agg("MIN", UB), "x")], where=("lt", UA, TA)))),
         ("scalar-correlated-coalesce", ("coalesce", [("scalar", sel(U, [(agg("MAX", UB), "x")], where=("eq", UA, TA))), L(0)])),
+        ("scalar-correlated-count-non-equi", ("scalar", sel(U, [(agg("COUNT_STAR"), "x")], where=("lt", UA, TA)))),
+        ("scalar-correlated-count-non-equi", ("scalar", sel(U, [(agg("COUNT", UA), "x")], where=("or", ("eq", UA, TA), ("isnull", UB))))),
+        ("scalar-correlated-or", ("scalar", sel(U, [(agg("MAX", UB), "x")], where=("or", ("eq", UA, TA), ("isnull", UA))))),
+        ("scalar-correlated-or", ("scalar", sel(U, [(agg("SUM", UB), "x")], where=("eq", ("coalesce", [UA, L(1)]), ("coalesce", [TA, L(1)]))))),
     ]
     for tag, e in scalars:
         out.append(("subquery", tag, sel(T, [(TA, "c0"), (TB, "c1"), (e, "c2")]), 2))
